@@ -397,6 +397,13 @@ func load(cmdline, environ, envprefix []string, props *properties.Properties) (c
 		return nil, fmt.Errorf("invalid metrics.prometheus.path %q: %s", cfg.Metrics.Prometheus.Path, err)
 	}
 
+	// the custom back end cannot start without a request for its URL
+	if cfg.Registry.Backend == "custom" {
+		if _, err := http.NewRequest("GET", cfg.Registry.Custom.URL(), nil); err != nil {
+			return nil, fmt.Errorf("invalid registry.custom url: %s", err)
+		}
+	}
+
 	if cfg.Registry.Consul.AllowStale && cfg.Registry.Consul.RequireConsistent {
 		return nil, fmt.Errorf("registry.consul.allowStale and registry.consul.requireConsistent cannot both be true")
 	}
